@@ -264,11 +264,12 @@ def errorMask : Nat := 14
 def queuedMask : Nat := 1536
 
 /-- `TrackerStatus.String` as the LIST of names it joins with "," — the order is Go's map iteration
-    order, so only the set is determined -/
+    order, so only the set is determined. A filter that is not itself a named value lists every named
+    status or group all of whose bits it contains (since d6bd794; before, any shared bit sufficed) -/
 def statusStrings (st : Nat) : List String :=
   match statusNames.find? (fun kv => kv.1 == st) with
   | some kv => [kv.2]
-  | none => (statusNames.filter (fun kv => st &&& kv.1 > 0)).map (·.2)
+  | none => (statusNames.filter (fun kv => kv.1 != 0 && st &&& kv.1 == kv.1)).map (·.2)
 
 def statusOfName (n : String) : Nat :=
   match statusNames.find? (fun kv => kv.2 == n) with
@@ -367,43 +368,69 @@ def wfProto (p : Pin) : Bool :=
 
 /-! ### query string (PinOptions.ToQuery / FromQuery) -/
 
+/-- an integer-valued query parameter: absent (or empty), present but unparsable, or a value -/
+inductive QInt where
+  | absent | bad | val (i : Int)
+  deriving DecidableEq, Repr
+
+/-- token of a user-allocations entry that is not a peer ID -/
+def badPeer : String := "p!"
+def validEntry (p : String) : Bool := p != emptyPeer && p != badPeer
+
 /-- the url.Values of a pin-options query, values typed (formatting and parsing of integers, times,
     CIDs and multiaddresses and URL escaping are library round-trips, validated by the harness) -/
 structure Query where
   name : String
   mode : String
-  replication : Option Int      -- "replication": overrides both factors; never written by ToQuery
-  rmin : Option Int
-  rmax : Option Int
-  shardSize : Option Nat
-  userAllocs : List String      -- the comma separated peers; [] for an empty value
+  replication : QInt            -- "replication": overrides both factors; never written by ToQuery
+  rmin : QInt
+  rmax : QInt
+  shardSize : QInt              -- parsed as uint64: a negative value does not parse
+  userAllocs : List String      -- the comma separated entries (`p-` = an empty entry, `p!` = not a peer ID)
   expireAt : Option Time
+  expireIn : Option Bool        -- "expire-in": absent / present and acceptable (≥ 1s) / present and refused
   metas : List (String × String) -- every "meta-<key>" parameter, by <key>
   pinUpdate : Option String
   origins : List Origin
   deriving DecidableEq, Repr
 
 def toQuery (po : PinOptions) : Query :=
-  { name := po.name, mode := modeString po.mode, replication := none, rmin := some po.rmin, rmax := some po.rmax,
-    shardSize := some po.shardSize, userAllocs := po.userAllocs,
-    expireAt := if po.expireAt.isZero then none else some po.expireAt,
+  { name := po.name, mode := modeString po.mode, replication := .absent, rmin := .val po.rmin, rmax := .val po.rmax,
+    shardSize := .val po.shardSize, userAllocs := po.userAllocs,
+    expireAt := if po.expireAt.isZero then none else some po.expireAt, expireIn := none,
     metas := po.metadata.filter (fun kv => kv.1 != emptyStr),
     pinUpdate := po.pinUpdate, origins := po.origins }
 
-/-- `FromQuery` into a fresh PinOptions (as the REST API does). expire-in (relative to the clock) is not modelled. -/
+def QInt.isBad : QInt → Bool | .bad => true | _ => false
+def QInt.getD (q : QInt) (d : Int) : Int := match q with | .val i => i | _ => d
+
+/-- the user-allocations value (entries joined by ",") is the empty string: the parameter is skipped -/
+def uaValueEmpty (l : List String) : Bool := l == [] || l == [emptyPeer]
+
+/-- `FromQuery` into a fresh PinOptions (as the REST API does), as of b5b684c: every value given must parse —
+    the mode is "", "recursive" or "direct"; replication-min and replication-max are parsed before the `replication` override;
+    every user-allocations entry is a peer ID; expire-in is validated whenever present. Not modelled: the
+    value an acceptable expire-in gives when there is no expire-at (the wall clock plus the duration),
+    unparsable expire-at / pin-update / origins strings, shard sizes beyond uint64. -/
 def fromQuery (q : Query) : Res PinOptions :=
-  if !q.origins.all (·.p2p) then .decErr else
-  let rmin := match q.replication with | some r => r | none => q.rmin.getD 0
-  let rmax := match q.replication with | some r => r | none => q.rmax.getD 0
-  .ok { rmin := rmin, rmax := rmax, name := q.name, mode := modeFromString q.mode, shardSize := q.shardSize.getD 0,
-        userAllocs := q.userAllocs.filter validPeer, expireAt := q.expireAt.getD Time.zero,
+  if !(["", "recursive", "direct"].contains q.mode) then .decErr
+  else if q.rmin.isBad || q.rmax.isBad || q.replication.isBad then .decErr
+  else if q.shardSize.isBad || decide (q.shardSize.getD 0 < 0) then .decErr
+  else if !uaValueEmpty q.userAllocs && !q.userAllocs.all validEntry then .decErr
+  else if q.expireIn == some false then .decErr
+  else if !q.origins.all (·.p2p) then .decErr else
+  let rmin := match q.replication with | .val r => r | _ => q.rmin.getD 0
+  let rmax := match q.replication with | .val r => r | _ => q.rmax.getD 0
+  .ok { rmin := rmin, rmax := rmax, name := q.name, mode := modeFromString q.mode, shardSize := (q.shardSize.getD 0).toNat,
+        userAllocs := if uaValueEmpty q.userAllocs then [] else q.userAllocs, expireAt := q.expireAt.getD Time.zero,
         metadata := q.metas.filter (fun kv => kv.1 != emptyStr), pinUpdate := q.pinUpdate, origins := q.origins }
 
 def queryRoundtrip (po : PinOptions) : Res PinOptions := fromQuery (toQuery po)
 
 /-- what the query form keeps of pin options -/
 def lossyQuery (po : PinOptions) : PinOptions :=
-  { po with mode := modeFromString (modeString po.mode), userAllocs := po.userAllocs.filter validPeer,
+  { po with mode := modeFromString (modeString po.mode),
+            userAllocs := if uaValueEmpty po.userAllocs then [] else po.userAllocs,
             metadata := po.metadata.filter (fun kv => kv.1 != emptyStr) }
 
 /-! ### Equals (api/types.go:584-679, 1038-1082) -/
